@@ -245,7 +245,10 @@ impl Version {
     }
 
     fn should_perform_mandatory_compaction(&self) -> bool {
-        self.levels[0].ssts.len() >= self.options.l0_mandatory_compaction_threshold_files
+        // Writers that wait for level 0 to drain can only be released by a compaction, whatever the
+        // mandatory thresholds say.
+        self.should_stall_ingest()
+            || self.levels[0].ssts.len() >= self.options.l0_mandatory_compaction_threshold_files
             || self.levels[0].size() >= self.options.l0_mandatory_compaction_threshold_bytes as u64
             || self.levels.iter().all(|x| !x.ssts.is_empty())
     }
